@@ -1787,6 +1787,17 @@ class _Ops:
             if fam == "spline":
                 return StepResult("skipped")
             new = old.align_corners(not old.align_corners())
+        elif mode == "samedomain":
+            # the same world box (cube of normalised coordinates) sampled with another number of points and,
+            # half of the time, the other align_corners convention
+            if fam == "spline":
+                return StepResult("skipped")
+            nsz = [int(n_) for n_ in op["size"]]
+            ac_new = (not old.align_corners()) if op.get("flip") else old.align_corners()
+            cube = old.cube()
+            st0, new = self.guarded(lambda: cube.grid(size=nsz, align_corners=ac_new))
+            if st0 != "ok" or not new.same_domain_as(old):
+                return StepResult("skipped")
         else:
             new = self.make_grid(op["grid"])
             if mode == "sub":
@@ -1810,6 +1821,7 @@ class _Ops:
             return StepResult("skipped")  # members of a composite must keep the common domain
         probe = self._grid_probe(x, old, new, mode, op)
         velocity = cname(t) in VELOCITY
+        config_before = self._config(t)
         expect = ()
         n_before = int(t.params.shape[0]) if k in ("P", "B") else 0
         kint = op.get("interrupt")
@@ -1854,6 +1866,15 @@ class _Ops:
         if k in ("P", "B") and kind_of(t) in ("P", "B") and int(t.params.shape[0]) != n_before:
             out.violations.append(self.viol("C09", "batch-lost", x, "grid_:" + mode, {"before": n_before, "after": int(t.params.shape[0])}))
             return out
+        # ---- a grid change re-expresses the parameters; what else the model is (inverted or not, scale and number of
+        # steps of the integration, strides, options) stays what it was
+        self.c["checks"]["grid_keeps_model_configuration"] += 1
+        config_after = self._config(t)
+        if config_after != config_before:
+            diff_ = sorted(k_ for k_ in set(config_before) | set(config_after) if config_before.get(k_) != config_after.get(k_))
+            out.violations.append(self.viol("C09", "configuration-lost", x, "grid_:" + mode, {"changed": diff_, "before": {k_: config_before.get(k_) for k_ in diff_}, "after": {k_: config_after.get(k_) for k_ in diff_}}))
+            out.violations.append(self.viol("C07", "configuration-lost", x, "grid_:" + mode, {"changed": diff_}))
+            return out
         # ---- the transform must now report the grid it was given
         if gen.grid_key(t.grid()) != gen.grid_key(new) and not (t.grid() == new and t.grid().align_corners() == new.align_corners()):
             out.violations.append(self.viol("C09", "grid-not-set", x, "grid_:" + mode, {"want": repr(new), "got": repr(t.grid())}))
@@ -1879,6 +1900,21 @@ class _Ops:
         y.affine_params = x.affine_params
         y.cause = x.cause
         return y
+
+    @staticmethod
+    def _config(t) -> Dict[str, Any]:
+        """What an elementary model is apart from its grid and parameter values."""
+        out: Dict[str, Any] = {"class": cname(t)}
+        if hasattr(t, "invert"):
+            out["invert"] = bool(t.invert)
+        if hasattr(t, "exp"):
+            out["exp.scale"] = float(t.exp.scale)
+            out["exp.steps"] = int(t.exp.steps)
+        for name in ("stride", "order"):
+            if hasattr(t, name):
+                v = getattr(t, name)
+                out[name] = tuple(int(a) for a in v) if isinstance(v, (tuple, list)) else str(v)
+        return out
 
     def _holds(self, t) -> Dict[str, Any]:
         """Digest of what transform t holds (grid, conditioning, parameter values, flags), members included."""
@@ -2069,6 +2105,15 @@ class _Ops:
         if not offers:
             return StepResult("ok", "inverse-unexpected")
         hid = int(op["out"])
+        if not link and via != "inv":
+            # an unlinked inverse is a shallow copy: it holds what the forward transform holds (the same Parameter or tensor
+            # objects, the same predictor), so that it can follow the forward transform as the documentation describes
+            kinds_t = [kind_of(e) for e in walk_elems(t)] + (["G:" + kind_of(t)] if isinstance(t, GenericSpatialTransform) else [])
+            kinds_r = [kind_of(e) for e in walk_elems(r)] + (["G:" + kind_of(r)] if isinstance(r, GenericSpatialTransform) else [])
+            self.c["checks"]["unlinked_inverse_holds_the_same_parameters"] += 1
+            if sorted(kinds_t) != sorted(kinds_r):
+                det = {"forward": kinds_t[:6], "inverse": kinds_r[:6]}
+                return StepResult("ok", "inverse-lost-parameters", [self.viol("C07", "inverse-lost-parameters", x, desc, det), self.viol("C09", "inverse-lost-parameters", x, desc, det)])
         # structure promised by the link argument: a linked inverse reads the forward transform's parameters
         fwd = {id(e) for e in walk_elems(t)}
         if link:
@@ -2908,10 +2953,13 @@ class _Gen:
             dims = [i for i in range(D) if rng.chance(0.7)] or [0]
             return {"op": "grid_", "h": x.hid, "mode": "subdivide", "dims": dims}
         if getattr(x, "affine_params", False):
-            mode = rng.weighted([("sub", 6), ("new", 1.5), ("acflip", 3), ("subdivide", 3)])
+            mode = rng.weighted([("sub", 6), ("new", 1.5), ("acflip", 3), ("subdivide", 3), ("samedomain", 3)])
         else:
-            mode = rng.weighted([("sub", 5), ("new", 3), ("acflip", 1.5), ("subdivide", 2)])
+            mode = rng.weighted([("sub", 5), ("new", 3), ("acflip", 1.5), ("subdivide", 2), ("samedomain", 1.5)])
         op = {"op": "grid_", "h": x.hid, "mode": mode, "pseed": rng.subseed()}
+        if mode == "samedomain":
+            op["size"] = [rng.randint(6, 20 if D == 2 else 10) for _ in range(D)]
+            op["flip"] = bool(rng.chance(0.6))
         if mode == "sub":
             op["grid"] = {"D": D, "size": [rng.randint(6, 20 if D == 2 else 10) for _ in range(D)], "spacing": [1.0] * D,
                           "center": [0.0] * D, "angles": [0.0] * (1 if D == 2 else 3), "flips": [False] * D,
